@@ -104,7 +104,11 @@ func TestC02(t *testing.T) {
 		"resource types with nested resource/optional/array/dictionary fields and ResourceDestroyed events) run on interpreter and VM; per successful tx: "+
 		"D and S duplicate-free, S_before+C = D+S_after (C from host GenerateUUID, D from ResourceDestroyed events, S from a Go-side walk of the committed ledger), "+
 		"and agreement with the Go model (created uuids, destroy events, per-location census, logs; intended failures fail and leave the ledger unchanged); "+
-		"non-trivial = creates >=2 resources, nests >=1, moves through a container or storage, destroys a tree of >=2 resources; distinct by program text")
+		"non-trivial = creates >=2 resources, nests >=1, moves through a container or storage, destroys a tree of >=2 resources; distinct by program text; "+
+		"second family (2 of 5 checks, 4 programs each): 'checker-decides' programs that are not linear by construction (a move in the right operand of &&, ||, ??, in one or both "+
+		"branches of ?:/if/if-let/switch, in an optional-chaining argument, in while/for bodies, behind a conditional return; balanced and unbalanced variants); only those the checker "+
+		"accepts run (flag=true and false, both engines) and every successful run must satisfy the conservation invariant; non-trivial there = uses a potentially-unevaluated construct; "+
+		"accept/reject counts per construct are in the class histogram")
 	opts := resgen.DefaultOptions()
 	if rec.Known("FR1") {
 		rec.ReportKnown("FR1", fr1StillFails())
